@@ -327,10 +327,10 @@ def post_batch(tier, base_seed, results):
     args = ["cache", base_seed % (2 ** 31), 12, "small"] if tier != "thorough" else ["cache", base_seed % (2 ** 31), 96]
     doc, cmd = scn_c02.run_compiled_probe(args, timeout=3 * 3600)
     out["evidence"]["compiled_cache_probe"] = {"cases": doc["cases"], "cases_overflowing_the_real_cache_limit": doc["big_cases"],
-                                               "thresholds": [-1, 0, 100, 10 ** 6], "mismatches": len(doc["mismatches"])}
+                                               "thresholds": [-1, 0, 100, 10 ** 6], "trace_likelihoods_recomputed": doc.get("llks_recomputed", 0), "mismatches": len(doc["mismatches"])}
     if doc["mismatches"]:
         out["violations"].append({"class": "compiled_trajectory_depends_on_cache",
-                                  "message": "compiled DenovoMCMC.fit gives different traces for different llk_cache_threshold values with the same seed: %r" % doc["mismatches"][:3],
+                                  "message": "compiled DenovoMCMC.fit: traces differ between llk_cache_threshold values with the same seed, or a recorded likelihood is not the uncached likelihood of its genotype: %r" % doc["mismatches"][:3],
                                   "detail": doc["mismatches"][:10], "rerun": cmd})
     return out
 
